@@ -90,8 +90,8 @@ pub trait Host {
 /// self-deadlock and reported as an error.
 #[derive(Default, Debug, Clone)]
 pub struct SeqHost {
-    /// (record index or usize::MAX outside a record, port, text)
-    pub writes: Vec<(usize, usize, String)>,
+    /// (record index or usize::MAX outside a record, port, text, written while holding a mutex)
+    pub writes: Vec<(usize, usize, String, bool)>,
     pub held: Vec<usize>,
     pub files: Vec<(usize, String, String)>,
     pub closed: Vec<usize>,
@@ -111,7 +111,7 @@ impl Host for SeqHost {
         if self.held.is_empty() {
             self.unguarded.push((port, text.to_string()));
         }
-        self.writes.push((self.cur, port, text.to_string()));
+        self.writes.push((self.cur, port, text.to_string(), !self.held.is_empty()));
     }
     fn lock(&mut self, m: usize) -> Result<(), String> {
         if self.held.contains(&m) {
@@ -171,6 +171,8 @@ pub struct Interp<'h> {
     /// when set, `lipe-scan` does not run the thunk but stores it here (step extraction / threads)
     pub capture_thunk: bool,
     pub captured: Option<Val>,
+    /// keep feeding records to the thunk after a scan break (to observe every record)
+    pub continue_after_break: bool,
     global: Env,
 }
 
@@ -214,6 +216,7 @@ impl<'h> Interp<'h> {
             next_mutex: 0,
             capture_thunk: false,
             captured: None,
+            continue_after_break: false,
             global,
         }
     }
@@ -745,7 +748,7 @@ impl<'h> Interp<'h> {
                     let o = self.run_thunk(&thunk, i, r)?;
                     let stop = o.stopped;
                     call.outcomes.push(o);
-                    if stop {
+                    if stop && !self.continue_after_break {
                         break;
                     }
                 }
